@@ -943,6 +943,64 @@ def g8(rep, src):
             rep.violation("G8", name + "@strategy", "%s searches the rule set of %s; reviewed: %s" % (name, say(got), say(want)), f.where())
 
 
+def g9(rep, src):
+    """Every aggregate for which the setter attaches the PUP -> DP rule is one the DP applier builds a column for."""
+    rep.rule(
+        "G9",
+        "sibling agreement: the aggregates RewritingRulesSetter::reduce accepts for the rule `PrivacyUnitPreserving -> DifferentiallyPrivate` (arms of its `match f.aggregate()` that do not answer false) "
+        "each have an explicit arm in the `match aggregate.aggregate()` of PupRelation::differentially_private_aggregates (a DISTINCT variant through its plain twin, which rewrite_distinct substitutes)",
+        floor=10,
+        necessary="a rule the setter attaches and the applier cannot carry out: `SELECT a, MIN(a), COUNT(b) FROM t GROUP BY a` has a consistent derivation, both entry points rewrite every acceptable candidate before "
+        "scoring, and the applier builds the DP relation without the MIN column - the rewriting aborts instead of returning that derivation",
+    )
+
+    def variants(p):
+        out = []
+        for c in (p["cases"] if p["k"] == "or" else [p]):
+            if c["k"] in ("path", "tuplestruct", "struct"):
+                segs = c["segs"] if c["k"] == "path" else c["path"]["segs"]
+                if "Aggregate" in segs[:-1]:
+                    out.append(segs[-1])
+            elif c["k"] in ("wild", "ident"):
+                out.append("_")
+        return out
+
+    fs = [f for f in src.find_fns(name="reduce", file=RR) if (f.self_ty or "").startswith("RewritingRulesSetter") and f.body]
+    fa = [f for f in src.find_fns(name="differentially_private_aggregates", file="differential_privacy/aggregates.rs") if (f.self_ty or "") == "PupRelation" and f.body]
+    if len(fs) != 1 or len(fa) != 1:
+        rep.undecidable("G9", "aggregates", "RewritingRulesSetter::reduce / PupRelation::differentially_private_aggregates not found (%d, %d)" % (len(fs), len(fa)), "src/" + RR)
+        return
+    from .canon import canon_view
+
+    ms = [m for m in find(canon_view(fs[0], src, lets=False).body, "match") if m["e"]["k"] == "mcall" and m["e"]["m"] == "aggregate"]
+    ma = [m for m in find(fa[0].body, "match") if m["e"]["k"] == "mcall" and m["e"]["m"] == "aggregate"]
+    if len(ms) != 1 or len(ma) != 1:
+        rep.undecidable("G9", "aggregates", "expected one `match <x>.aggregate()` on each side, found %d in the setter and %d in the applier" % (len(ms), len(ma)), fs[0].where())
+        return
+    accepted = []
+    for a in ms[0]["arms"]:
+        b = a["body"]
+        while b["k"] == "block" and len(b["stmts"]) == 1 and b["stmts"][0]["k"] == "expr":
+            b = b["stmts"][0]["e"]
+        if b["k"] == "lit" and b.get("v") is False:
+            continue
+        accepted += [v for v in variants(a["pat"]) if v != "_"]
+        if "_" in variants(a["pat"]):
+            rep.undecidable("G9", "aggregates@setter-default", "the default arm of the setter's table accepts aggregates it does not name", "src/%s:%d" % (RR, a["l"]))
+    handled = set()
+    for a in ma[0]["arms"]:
+        vs = variants(a["pat"])
+        if "_" in vs:
+            continue
+        handled |= set(vs)
+    for v in accepted:
+        twin = v[: -len("Distinct")] if v.endswith("Distinct") else v
+        key = "aggregates@" + v
+        rep.instance("G9", key, {"aggregate": v, "applier_arm": twin if twin in handled else None}, nontrivial=False)
+        if twin not in handled:
+            rep.violation("G9", key, "the setter attaches PUP -> DP to a reduce with Aggregate::%s but differentially_private_aggregates has no arm for Aggregate::%s: the column is not built and the rewriting aborts" % (v, twin), fa[0].where())
+
+
 def run(rep):
     rep.explanation = (
         "Arm/term tables of the rewriting search read from the syn AST: positional agreement of selector and eliminator predicates (G1), "
@@ -958,4 +1016,5 @@ def run(rep):
     g6(rep, src)
     g7(rep, src)
     g8(rep, src)
+    g9(rep, src)
     rep.assume("Visited::get returns the value computed for that child (visitor.rs, not analysed)")
